@@ -74,6 +74,13 @@ def build_sims():
         except Exception as ex:
             sims.append(("ERR", 0, 0, f"Beam: {type(ex).__name__}: {ex}"))
         try:
+            IE = Models.InElastic
+            for m in (m2, m2t, ambiguous[1]):
+                law = IE.Behavior(2, Models.Elastic.Isotropic(3, E=200.0, v=0.3), yieldSurface=IE.Yield.VonMises(2.0), hardening=IE.IsotropicHardening.Linear(50.0), thickness=0.7)
+                sims.append(("InElastic", 2, 2, Simulations.InElastic(m, law, verbosity=False)))
+        except Exception as ex:
+            sims.append(("ERR", 0, 0, f"InElastic: {type(ex).__name__}: {ex}"))
+        try:
             he = Models.HyperElastic.NeoHookean(2, 1.0, 10.0) if hasattr(Models.HyperElastic, "NeoHookean") else None
             if he is not None:
                 sims.append(("HyperElastic", 2, 2, Simulations.HyperElastic(m2, he, verbosity=False)))
@@ -105,7 +112,7 @@ def candidates(kind, dim, dofn, sim, fields):
     for f, arr in (("u", u), ("v", v), ("a", a)):
         mat = arr.reshape(Nn, nd)
         c[(f, "all")] = arr
-        if kind in ("Elastic", "HyperElastic", "PhaseField"):
+        if kind in ("Elastic", "HyperElastic", "PhaseField", "InElastic"):
             c[(f, "matrix")] = np.hstack([mat, np.zeros((Nn, 3 - nd))])
         c[(f, "norm")] = np.linalg.norm(mat, axis=1)
         for i in range(nd):
@@ -137,9 +144,11 @@ def candidates(kind, dim, dofn, sim, fields):
         um = u.reshape(Nn, nd)[:, :nt]
         con = g.connect[:, [0, -1]] if g.connect.shape[1] == 2 else g.connect[:, [0, 1]]
         axial = np.einsum("ei,ei->e", um[con[:, 1]] - um[con[:, 0]], t[:, :nt]) / Lg
+        c[("ut", "norm")] = np.linalg.norm(um, axis=1)
+        c[("ut", "matrix")] = np.hstack([um, np.zeros((Nn, 3 - nt))])
         if not np.allclose(axial, c[("Eb", "0")], rtol=1e-9, atol=1e-14):
             c[("Eb", "0")] = axial  # the independent value wins: a scaled operator then shows as a mismatch
-    if kind == "Elastic":
+    if kind in ("Elastic", "InElastic"):
         from EasyFEA.FEM import MatrixType
 
         S_parts, E_parts = [], []
@@ -147,13 +156,13 @@ def candidates(kind, dim, dofn, sim, fields):
             B = np.asarray(g.Get_B_e_pg(MatrixType.rigi))  # Kelvin-Mandel strain operator
             ue = u[g.Get_assembly_e(dim)]
             eps = np.einsum("epij,ej->epi", B, ue)
-            C = np.asarray(sim.material.C)
+            C = np.asarray(sim.material.C) if kind == "Elastic" else np.eye(eps.shape[-1])
             sig = np.einsum("ij,epj->epi", C, eps)
             for arr, store in ((eps, E_parts), (sig, S_parts)):
                 x = arr.copy()
                 x[..., dim:] /= np.sqrt(2)
                 store.append(x)
-        for f, parts in (("S", S_parts), ("E", E_parts)):
+        for f, parts in (("S", S_parts), ("E", E_parts)) if kind == "Elastic" else (("E", E_parts),):
             x = np.concatenate([p.mean(1) for p in parts])
             nc = x.shape[1]
             c[(f, "all")] = x
@@ -165,7 +174,7 @@ def candidates(kind, dim, dofn, sim, fields):
     return c
 
 
-NODE_FIELDS = ("u", "v", "a", "d", "Ku")
+NODE_FIELDS = ("u", "ut", "v", "a", "d", "Ku")
 
 
 def to_elements(sim, ref):
@@ -201,7 +210,7 @@ def record(ctx, seed):
             continue
         fields = set_random_state(kind, sim, rng)
         cands = candidates(kind, dim, dofn, sim, fields)
-        avail = list(sim.Results_Available())
+        avail = [str(getattr(n, "value", n)) for n in sim.Results_Available()]
         base = dict(sim=kind, dim=dim, dofn=dofn, Nn=int(sim.mesh.Nn), Ne=int(sim.mesh.Ne), avail=avail)
         for name in avail:
             for nodeValues in (False, True):
